@@ -1184,11 +1184,59 @@ pub fn c20(ctx: &Ctx) -> (CheckMeta, Outcome) {
             out
         }));
     }
+    // (5) runs of equally spaced change points followed by a different gap (what Rice/Golomb lengths
+    // look like locally, but with the regularity BROKEN): m steps in arithmetic progression with gap g
+    // from a start a, then one more step at distance d
+    {
+        let gaps: Vec<u64> = (1..=24u64).chain([31, 32, 33, 100, 127, 128, 129, 1000, 3_000_000, (1 << 20) + 3, (1 << 33) + 5]).collect();
+        for (gi, &g) in gaps.iter().enumerate() {
+            let thorough = ctx.thorough;
+            tasks.push(Box::new(move || {
+                let mut out = Outcome::new();
+                out.cov.configs.insert("synthetic-progressions".into());
+                let _ = gi;
+                let ds: Vec<u64> = if g <= 40 { (1..=2 * g + 2).collect() } else { vec![1, 2, g / 2, g - 1, g, g + 1, g + g / 2, 2 * g - 1, 2 * g, 2 * g + 1, (g + 1).next_power_of_two() - 1, (g + 1).next_power_of_two(), (g + 1).next_power_of_two() + 1] };
+                for m in 1..=(if thorough { 20usize } else { 12 }) {
+                    for a in [1u64, g, 5, 1000] {
+                        for &d in &ds {
+                            let mut steps: Vec<u64> = (0..m as u64).map(|i| a + i * g).collect();
+                            steps.push(a + (m as u64 - 1) * g + d);
+                            // and a second progression with another gap after the break
+                            let mut variants = vec![steps.clone()];
+                            let mut two = steps.clone();
+                            let last = *two.last().unwrap();
+                            for i in 1..=3u64 {
+                                two.push(last + i * (g + 1));
+                            }
+                            variants.push(two);
+                            for st in variants {
+                                let stc = st.clone();
+                                let f = move |x: u64| -> usize { 3 + stc.iter().filter(|&&p| x >= p).count() };
+                                out.cov.evaluations += 1;
+                                out.cov.nontrivial += 1;
+                                let r = change_points(&f, 100_000, st.len() + 8);
+                                let bad = match r {
+                                    Ok(items) => judge_points(&items, &f, Some(&st)).err().map(|d| ("value", d)),
+                                    Err(d) => Some((if d.starts_with("panic") { "panic" } else { "hang" }, d)),
+                                };
+                                if let Some((sym, d)) = bad {
+                                    if out.violations.len() < 10 {
+                                        out.violations.push(v("C20", "find-change", "synthetic-progressions".into(), "next", sym, format!("steps at {:?}: {}", st, d), json!({"kind": "steps", "steps": st, "value_map": 0})));
+                                    }
+                                }
+                            }
+                        }
+                    }
+                }
+                out
+            }));
+        }
+    }
     let out = run_all(tasks, threads());
     let meta = CheckMeta {
         property: "C20".into(),
         level: "exploration".into(),
-        rule: "(1) every library length function (unary, gamma, delta, omega, vbyte, zeta/pi/rice/exp-golomb with parameters 0..=16, 31, 63, golomb 1..=64 and six larger moduli): len(v) <= len(v+1) for all v below 2^20 (thorough 2^21) and within 2^10 of every power of two; Kraft sum of the dense prefix in exact arithmetic (numerator over 2^(2^21)) must not exceed 1; (2) FindChangePoints on each of those functions, driven through a closure with a 200 000-call budget: first item (0, f(0)), strictly increasing, every item a true change point with the new value, none of the true change points of the dense prefix missed, iteration ends; (3) get_implied_distribution terminates for each code and its probabilities are 2^-len x run length, and sample_implied_distribution can be set up (seeded rng) and yields 16 values whose codewords are at most 128 bits; (4) ALL synthetic non-decreasing step functions with at most 5 (thorough: 6) steps at positions from a 39-point grid (1..9, around 2^7, 2^16, 2^20, 2^31..2^33, 2^47, 2^62, 2^63 +-1, beyond 2^63, 2^64-2), including the constant function, each with small values, with usize::MAX as its highest value and with levels 2^32 apart: same oracle, every step <= 2^63 must be reported; non-trivial = value at which a length steps / function with at least one step".into(),
+        rule: "(1) every library length function (unary, gamma, delta, omega, vbyte, zeta/pi/rice/exp-golomb with parameters 0..=16, 31, 63, golomb 1..=64 and six larger moduli): len(v) <= len(v+1) for all v below 2^20 (thorough 2^21) and within 2^10 of every power of two; Kraft sum of the dense prefix in exact arithmetic (numerator over 2^(2^21)) must not exceed 1; (2) FindChangePoints on each of those functions, driven through a closure with a 200 000-call budget: first item (0, f(0)), strictly increasing, every item a true change point with the new value, none of the true change points of the dense prefix missed, iteration ends; (3) get_implied_distribution terminates for each code and its probabilities are 2^-len x run length, and sample_implied_distribution can be set up (seeded rng) and yields 16 values whose codewords are at most 128 bits; (4) ALL synthetic non-decreasing step functions with at most 5 (thorough: 6) steps at positions from a 39-point grid (1..9, around 2^7, 2^16, 2^20, 2^31..2^33, 2^47, 2^62, 2^63 +-1, beyond 2^63, 2^64-2), including the constant function, each with small values, with usize::MAX as its highest value and with levels 2^32 apart: same oracle, every step <= 2^63 must be reported; (5) step functions whose first m (1..=12, thorough 20) steps are equally spaced (35 gaps from 1 to 2^33+5, four starting points) followed by one step at every distance 1..=2g+2 (for large gaps: around g/2, g, 2g and the next power of two), and the same followed by a second progression; non-trivial = value at which a length steps / function with at least one step".into(),
         assumptions: vec!["Kraft terms below 2^-(2^21) are ignored (only possible for unary-like codes beyond the dense prefix)".into()],
     };
     (meta, out)
